@@ -172,7 +172,7 @@ def _rand_tensor(rng, shape, style):
 
 def random_trace(rng, steps):
     nh = rng.choice([1, 2, 3, 3])
-    target = rng.choice(["dense", "dense", "plain", "nested"])
+    target = rng.choice(["dense", "dense", "plain", "nested", "deep"])
     shape = rng.choice([(2, 3), (1, 4), (3, 3), (4, 2)] if target == "dense" else [(2, 3), (5,), (2, 2, 3), (3, 1)])
     real = {"target": target, "shape": list(shape), "x0": _rand_tensor(rng, shape, "uniform"), "hooks": {}}
     hooks = []
